@@ -121,7 +121,7 @@ def eval_case(case, seed, thorough):
     c = make_case(case, seed, thorough)
     conn, ep = c["conn"], c["ep"]
     cap = scene.capture(c["items"])
-    keys = scene.keylog_text(c["flows"], c["rng"])
+    keys = scene.keylog_text(c["flows"], c["rng"], decoys=c["rng"].random() < 0.35)
     mon = monitors.TlsStateMonitor()
     res, files, argv = e2e.run_capture(cap, keys, c["extra"], child_setup=mon.install)
     nbytes = len(conn.truth["c"]) + len(conn.truth["s"])
